@@ -147,3 +147,26 @@ func C08compare(p *load.Program, run *report.Run) {
 	run.Floor("compare-examples", 3)
 	run.Floor("key-comparisons", 4)
 }
+
+// C05recycle: the wire allocator's recycled headers start clean.
+func C05recycle(p *load.Program, run *report.Run) {
+	run.Rule("recycled-object-reinitialised", "for every free list of struct headers in compiler/ssa and compiler/circuits (a field of type []*T that is appended to and popped from), every field of T is overwritten before the object is put on the list or on every path of the popping function after it is taken: a header of a collected value cannot carry its id vector, chain link or base to the next value")
+	lints.RecycledReinit(p, run, []string{"compiler/ssa", "compiler/circuits", "circuit", "ot", "p2p"})
+	run.Floor("recycling-lists", 1)
+	run.Floor("recycled-fields", 5)
+}
+
+// BuilderErrors: no error of a circuit builder is dropped.
+func BuilderErrors(p *load.Program, run *report.Run) {
+	run.Rule("builder-errors-propagated", "in compiler/circuits and compiler/ssa, no call of a function of compiler/circuits whose last result is an error is a bare statement, a go statement, or has that result assigned to _ (test files excluded): a builder that rejects a shape has driven nothing; each such call is counted, a dropped one is reported with its site")
+	lints.DroppedError(p, run, []string{"compiler/circuits", "compiler/ssa"}, "compiler/circuits")
+	run.Floor("builder-calls-returning-error", 60)
+	run.OK("builder-errors-propagated", "compiler/circuits+compiler/ssa", "", "every other counted call uses its error result")
+}
+
+// ConstLoops: construction-time constness of a wire never ends a loop over an operand's bits.
+func ConstLoops(p *load.Program, run *report.Run) {
+	run.Rule("constness-never-ends-a-bit-loop", "in compiler/circuits, a comparison of an element of a wire vector with another wire, or of its Value(), may select how one bit is built but may not appear in a loop condition nor guard a break: the shared constant wires stand for interior bits too; with built-in examples")
+	lints.ConstTerminatedLoop(p, run, []string{"compiler/circuits"})
+	run.Floor("constness-examples", 3)
+}
